@@ -483,6 +483,9 @@ def _r3_uops_shape(ctx):
 
 
 def run(ctx):
+    C.require_locals(ctx, ctx.func('db_interface._check_sanity_arch_db'), ['missing_throughput', 'missing_latency', 'missing_port_pressure'])
+    C.require_locals(ctx, ctx.func('ArchSemantics._handle_instruction_found'), ['instruction_form', 'instruction_data'])
+    C.require_locals(ctx, ctx.func('ArchSemantics.assign_optimal_throughput'), ['instruction_form', 'kernel', 'idx'])
     _d0_consumers(ctx)
     ctx.rule("D1", "every entry / table row / default of every non-empty data file satisfies the schema")
     models = ctx.data.models()
